@@ -521,66 +521,43 @@ func (r *Regex) LiteralPrefix() (prefix string, complete bool) {
 	if err != nil {
 		return "", false
 	}
-	re = re.Simplify()
-	return literalPrefix(re)
-}
-
-// literalPrefix extracts the literal prefix from a parsed regex AST.
-func literalPrefix(re *syntax.Regexp) (string, bool) {
-	switch re.Op {
-	case syntax.OpLiteral:
-		// A case-folded rune matches its whole fold orbit: the exact prefix ends there.
-		for i, r := range re.Rune {
-			if re.Flags&syntax.FoldCase != 0 && unicode.SimpleFold(r) != r {
-				return string(re.Rune[:i]), false
-			}
-		}
-		return string(re.Rune), true
-	case syntax.OpConcat:
-		// Concatenation: collect literal prefixes from the beginning
-		var prefix []rune
-		hasAnchor := false
-		for _, sub := range re.Sub {
-			switch sub.Op {
-			case syntax.OpLiteral, syntax.OpCapture:
-				// Look inside capture group / stop at a case-folded rune
-				inner, complete := literalPrefix(sub)
-				prefix = append(prefix, []rune(inner)...)
-				if !complete {
-					return string(prefix), false
-				}
-			case syntax.OpBeginLine, syntax.OpEndLine, syntax.OpBeginText, syntax.OpEndText:
-				// Skip anchors - they don't produce literal characters
-				// but mark that pattern has anchors (not complete)
-				hasAnchor = true
-				continue
-			case syntax.OpEmptyMatch:
-				// Empty match doesn't affect prefix
-				continue
-			default:
-				// Non-literal found
-				return string(prefix), false
-			}
-		}
-		// If we have anchors, the pattern is not "complete" (has additional constraints)
-		if hasAnchor {
-			return string(prefix), false
-		}
-		return string(prefix), true
-	case syntax.OpCapture:
-		// Capture group: look at the contents
-		if len(re.Sub) == 1 {
-			return literalPrefix(re.Sub[0])
-		}
-		return "", false
-	case syntax.OpBeginLine, syntax.OpEndLine, syntax.OpBeginText, syntax.OpEndText:
-		// Anchors alone mean no literal prefix and not complete
-		return "", false
-	case syntax.OpEmptyMatch:
-		return "", true
-	default:
+	prog, err := syntax.Compile(re.Simplify())
+	if err != nil {
 		return "", false
 	}
+	return literalPrefix(prog)
+}
+
+// literalPrefix computes the literal prefix from the compiled program exactly as stdlib
+// regexp does: Prog.Prefix for unanchored programs, and for programs that begin with \A
+// the literal that follows the anchor (stdlib's rule for its one-pass programs).
+func literalPrefix(prog *syntax.Prog) (string, bool) {
+	i := &prog.Inst[prog.Start]
+	if i.Op != syntax.InstEmptyWidth || syntax.EmptyOp(i.Arg)&syntax.EmptyBeginText == 0 {
+		return prog.Prefix()
+	}
+	i = &prog.Inst[i.Out]
+	for i.Op == syntax.InstNop {
+		i = &prog.Inst[i.Out]
+	}
+	isRune := func(i *syntax.Inst) bool {
+		switch i.Op {
+		case syntax.InstRune, syntax.InstRune1, syntax.InstRuneAny, syntax.InstRuneAnyNotNL:
+			return true
+		}
+		return false
+	}
+	var buf strings.Builder
+	for isRune(i) && len(i.Rune) == 1 && syntax.Flags(i.Arg)&syntax.FoldCase == 0 && i.Rune[0] != utf8.RuneError {
+		buf.WriteRune(i.Rune[0])
+		i = &prog.Inst[i.Out]
+	}
+	complete := i.Op == syntax.InstEmptyWidth && syntax.EmptyOp(i.Arg)&syntax.EmptyEndText != 0 &&
+		prog.Inst[i.Out].Op == syntax.InstMatch
+	if buf.Len() == 0 {
+		complete = i.Op == syntax.InstMatch
+	}
+	return buf.String(), complete
 }
 
 // NumSubexp returns the number of parenthesized subexpressions in this Regex.
